@@ -304,7 +304,7 @@ func c11SetupEval(f []string) (string, []string) {
 		return "bad-case", nil
 	}
 	if !c11IsWorker() {
-		return c11Isolated("c11.setup", f, 4)
+		return c11Isolated("c11.setup", f, 4, "total")
 	}
 	return c11InWorker(c11SetupLocal, f)
 }
